@@ -4,7 +4,7 @@
    from /repo/billiard/common.py on this run computes exactly Model.Restart.step. *)
 From Coq Require Import ZArith List Bool.
 From BV Require Import Lib.PyVal Gen.K_restart Model.Restart Proofs.RestartProofs.
-From BV Require Model.Pool Proofs.PoolSup.
+From BV Require Gen.G_pool_shape Model.Pool Proofs.PoolSup.
 Import ListNotations.
 Open Scope Z_scope.
 
@@ -72,6 +72,14 @@ Theorem C11_refused_forks_nothing : forall i codes s c,
                  /\ snd (Pool.repopulate (S fuel) i codes s) = Pool.RExc 10.
 Proof. exact PoolSup.repopulate_refused_starts_nothing. Qed.
 Print Assumptions C11_refused_forks_nothing.
+
+(* clean/recycle exits are not charged, the limiter is consulted before the fork, an accepted job resets the counter (facts computed from the AST of /repo/billiard/pool.py on this run) *)
+Theorem C11_pool_code_shape :
+  G_pool_shape.clean_exits_not_charged = true /\
+  G_pool_shape.limiter_consulted_before_fork = true /\
+  G_pool_shape.ack_resets_restart_counter = true.
+Proof. repeat split; reflexivity. Qed.
+Print Assumptions C11_pool_code_shape.
 
 (* non-vacuity: a reachable state meeting the hypotheses of C11_budget, and the
    theorem's conclusion computed on it: budget 2, window 5 s opened at t=100 *)
